@@ -478,6 +478,30 @@ def run_forwarding(rec, F, S=None):
     rec.floor(RS, "receiver-growing list natives", n, 2)
 
 
+def run_forwarded_writes(rec, F):
+    R = rec.rule("F10.fwd-write", "a list handle may be any number of growths behind (A -> B -> C): every List method that writes into a block (write_len / write_value) does so only on the arm where that handle's own state() is Here, and reaches a forwarded list by calling the same operation on it (which recurses to the end of the chain). A write through one resolved hop lands in a forwarding stub, where the length slot holds the forwarding pointer")
+    n = 0
+    for fn in F.all_fns():
+        if fn.crate != "laythe_core" or "object::list::List" not in fn.path or "::test" in fn.path:
+            continue
+        if fn.name in ("grow", "new"):
+            continue    # grow writes the forwarding stub itself
+        for bi, t in fn.calls():
+            if lastseg(t["f"]) not in ("write_len", "write_value"):
+                continue
+            n += 1
+            gs = sem.dominating_guards(F, fn, bi)
+            here = any(g[1][0] == "discr" and sem.desc_call_name(g[1][1]) == "state" and "('arg', 1)" in str(g[1][1]) and g[2] == "Here" for g in gs)
+            # the written block belongs to the receiver (or the list ensure_capacity just handed back), not to a list taken out of Forwarded(..)
+            tgt = str(sem.desc_operand(fn, t["args"][0]))
+            via_forwarded = "Forwarded" in tgt
+            ok = here and not via_forwarded
+            rec.inst(R, "%s: %s under state() == Here" % (fn.name, lastseg(t["f"])), ok=ok, loc=loc_of(t["sp"]))
+            if not ok:
+                rec.finding(R, "F10.fwd-write/%s/%s" % (fn.name, lastseg(t["f"])), "List::%s calls %s outside the `Here` arm of its receiver's state(): when the handle is two or more growths behind, the write goes into an intermediate forwarding stub (overwriting its forwarding pointer) instead of the live block" % (fn.name, lastseg(t["f"])), loc=loc_of(t["sp"]), fn=fn.path)
+    rec.floor(R, "block writes in List methods", n, 5)
+
+
 IDENTITY_SINKS = ("contains", "eq", "ne", "position", "rposition", "get", "get_mut", "insert", "remove", "contains_key", "has", "index_of", "binary_search", "starts_with", "ends_with")
 
 
